@@ -256,6 +256,25 @@ CLAIMED["C18"] = dict(
     technique="Lean 4 proof over pruned runtime trees (all node-granular failure points) + exhaustive h5py fault enumeration on the real code",
     design="7 C18")
 
+CLAIMED["C15"] = dict(
+    text="The claim 'for ANY input' is false of the code that exists, so the theorem is stated as ..._partial on explicit domains and "
+         "every exclusion is exhibited by a counterexample decided in the model AND replayed on the implementation each run. "
+         "Kernel-checked: C15_rejects_unsupported / _in_dict / _in_sequence / _odd_lists — values of kinds the writer does not know "
+         "(numpy bools, bytes, sets and other objects, what h5py refuses, lists of lists / tuples / dicts, ragged sequences) are "
+         "rejected AT SAVE TIME wherever they sit in documented containers; C15_metadata_partial — a documented value is never "
+         "rejected and reads back as its canonical form; C15_tree_partial — a well-formed tree round-trips exactly; "
+         "C15_counterexample_* — the sentinel string, mixed tuples, '_labels_' as a dim name, names outside valid link names, "
+         "field-less point data.",
+    note="PARTIAL by nature: the accept set of numpy / h5py is not modelled (contract H6: what h5py refuses is supplied to the "
+         "model as an unsupported kind). The check runs a catalogue of ~270 edge inputs (undocumented metadata kinds, names / keys "
+         "with '/', '.', '', NUL, reserved words, collisions, zero-length and 0-d data, sub-array and field-less point data, very "
+         "long names) through the real save / read with the direct predicate, and the metadata edges through the Lean metadata "
+         "model as well. Seven classes of genuine defects are recorded as known findings C15-K1..K7 (each identified by its input "
+         "class and witness); one (0-d data) was repaired. Any other input for which save succeeds and read fails or differs is a "
+         "violation.",
+    technique="Lean 4 rejection / round-trip theorems with model counterexamples + catalogue-driven differential check with known-finding matching",
+    design="7 C15")
+
 NOT_YET = {}
 
 def main():
